@@ -13,7 +13,10 @@ for f in sorted(glob.glob(os.path.join(V, "checks", "c??.py"))):
     subprocess.run(["lake", "build"] + spec["lean_props"], cwd=os.path.join(V, "lean"), stdout=subprocess.DEVNULL, stderr=subprocess.DEVNULL)
     out = subprocess.run(["lake", "env", "lean", "--run", "Audit.lean"] + spec["lean_props"], cwd=os.path.join(V, "lean"),
                          stdout=subprocess.PIPE, stderr=subprocess.STDOUT).stdout.decode()
-    names = [l.split(" ")[2] for l in out.splitlines() if l.startswith("THEOREM ")]
+    import re
+    # equation lemmas (`f.eq_def`, `f.eq_1`) are generated on demand by the proofs that unfold f: not property theorems
+    names = [l.split(" ")[2] for l in out.splitlines() if l.startswith("THEOREM ")
+             and not re.search(r"\.(eq_def|eq_\d+|proof_\d+)$|match_\d+", l.split(" ")[2])]
     if not names:
         print(spec["id"], "no theorems listed (build first?)", out[-300:]); continue
     p = os.path.join(V, "checks", "theorems", spec["id"] + ".txt")
